@@ -328,7 +328,8 @@ static inline int myth_key_create_body(myth_key_t * key,
 					      destructor);
   (void)_;
   if (k == -1) {
-    return EINVAL;
+    /* all keys are in use (pthread_key_create: EAGAIN) */
+    return EAGAIN;
   } else {
     *key = k;
     return 0;
